@@ -75,6 +75,7 @@ var opaqueModels = map[string]bool{
 	"(*github.com/go-logfmt/logfmt.Decoder).Value":                    true,
 	"(*github.com/go-logfmt/logfmt.Decoder).Err":                      true,
 	"strings.NewReader":                                               true,
+	"(*text/scanner.Scanner).Init":                                    true,
 	"(*github.com/spf13/cobra.Command).Context":                       true,
 	"(*github.com/spf13/cobra.Command).OutOrStdout":                   true,
 	"go.opentelemetry.io/collector/pdata/pcommon.NewValueSlice":       true,
@@ -87,7 +88,6 @@ var opaqueModels = map[string]bool{
 	"(go.opentelemetry.io/collector/pdata/pcommon.Value).CopyTo":      true,
 	"(go.opentelemetry.io/collector/pdata/pcommon.Slice).AppendEmpty": true,
 	"(go.opentelemetry.io/collector/pdata/pcommon.Map).PutEmpty":      true,
-	"(*text/scanner.Scanner).Scan":                                    true,
 	"(*text/scanner.Scanner).TokenText":                               true,
 	"(*text/scanner.Scanner).Pos":                                     true,
 	"(*regexp.Regexp).FindStringSubmatch":                             true,
